@@ -11,7 +11,9 @@
 //   cfg = "n=2;lim=1,2,1;p=1;k=3;filt=1.2;thr=1.2,2.3;ops=1,0;raw=0;api=0"
 //     n    number of gates (0 = one-stage pipeline);  lim = generator, gate 1..n (99 = kStageNoLimit)
 //     filt (gate.item) pairs dropped by that (OpResult-returning) transform; thr (stage.item) pairs that throw
-//     ops  per transform: 1 = returns OpResult<Item> (may filter), 0 = returns Item
+//     ops  per transform: 1 = returns OpResult<Item> (may filter), 0 = returns Item, 2 = returns const Item& to a
+//          result buffer the functor owns and reuses for the next item (only as dispenso::stage(f, 1): the
+//          serial slot is what protects the buffer; any other limit / raw=1 falls back to kind 0)
 //     raw  1 = every stage is passed as a plain functor (=> serial), no dispenso::stage()
 //     api  1 = call dispenso::pipeline() itself (no projection of the internals); 0 = the same four
 //              statements written out here so that the gates' words can be projected after every step
@@ -94,6 +96,9 @@ static Cfg parseCfg(const std::string& s) {
   if (c.raw)
     for (auto& l : c.lim)
       l = 1;
+  for (int g = 1; g < c.n; ++g)
+    if (c.ops[(size_t)g - 1] == 2 && (c.raw || c.lim[(size_t)g] != 1))
+      c.ops[(size_t)g - 1] = 0;
   return c;
 }
 
@@ -230,6 +235,23 @@ struct OpFn {
     return Item(in.id, g);
   }
 };
+// A transform that hands out a REFERENCE to a result buffer it owns and overwrites for the next item.  As
+// dispenso::stage(RefFn, 1) this is a correct stage: at most one invocation at a time, and the stage wrapper
+// returns by value, i.e. the result is copied while the serial slot is still held.  The item identity travels
+// in the buffer, so the next stage logs the identity it really RECEIVED: a result that is read only after the
+// slot was released (the next queued item already ran and overwrote the buffer) shows up in the trace as
+// one item delivered twice and another one lost (AtMostOnce / AllDelivered).
+struct RefFn {
+  World* w;
+  int g;
+  Item buf{0, 0};
+  RefFn(World* wi, int gi) : w(wi), g(gi) {}
+  const Item& operator()(Item in) {
+    bodyIn(w, g, in);
+    buf = Item(in.id, g);
+    return buf;
+  }
+};
 struct SinkFn {
   World* w;
   int g;
@@ -318,6 +340,33 @@ static auto mk(std::false_type, F f, int lim) {
   return dispenso::stage(std::move(f), stageLimit(lim));
 }
 
+// picks the functor type of transform g by its kind (0 Item, 1 OpResult<Item>, 2 const Item& to a reused buffer;
+// kind 2 exists only behind dispenso::stage(f, 1), see parseCfg)
+template <class K>
+static void transformOf(World& w, int g, int kind, std::true_type, K&& k) {
+  if (kind == 1)
+    k(OpFn{&w, g});
+  else
+    k(PlainFn{&w, g});
+}
+template <class K>
+static void transformOf(World& w, int g, int kind, std::false_type, K&& k) {
+  if (kind == 1)
+    k(OpFn{&w, g});
+  else if (kind == 2)
+    k(RefFn(&w, g));
+  else
+    k(PlainFn{&w, g});
+}
+template <class Raw, class K>
+static void tr1(World& w, int kind, K&& k) {
+  transformOf(w, 1, kind, Raw(), std::forward<K>(k));
+}
+template <class Raw, class K>
+static void tr2(World& w, int kind, K&& k) {
+  transformOf(w, 2, kind, Raw(), std::forward<K>(k));
+}
+
 template <class Raw>
 static void runShape(World& w) {
   const Cfg& c = *w.cfg;
@@ -332,20 +381,14 @@ static void runShape(World& w) {
       runStages(w, mk(r, GenFn{pw}, L(0)), mk(r, SinkFn{pw, 1}, L(1)));
       break;
     case 2:
-      if (c.ops[0])
-        runStages(w, mk(r, GenFn{pw}, L(0)), mk(r, OpFn{pw, 1}, L(1)), mk(r, SinkFn{pw, 2}, L(2)));
-      else
-        runStages(w, mk(r, GenFn{pw}, L(0)), mk(r, PlainFn{pw, 1}, L(1)), mk(r, SinkFn{pw, 2}, L(2)));
+      tr1<Raw>(w, c.ops[0], [&](auto f1) { runStages(w, mk(r, GenFn{pw}, L(0)), mk(r, std::move(f1), L(1)), mk(r, SinkFn{pw, 2}, L(2))); });
       break;
     default:
-      if (c.ops[0] && c.ops[1])
-        runStages(w, mk(r, GenFn{pw}, L(0)), mk(r, OpFn{pw, 1}, L(1)), mk(r, OpFn{pw, 2}, L(2)), mk(r, SinkFn{pw, 3}, L(3)));
-      else if (c.ops[0])
-        runStages(w, mk(r, GenFn{pw}, L(0)), mk(r, OpFn{pw, 1}, L(1)), mk(r, PlainFn{pw, 2}, L(2)), mk(r, SinkFn{pw, 3}, L(3)));
-      else if (c.ops[1])
-        runStages(w, mk(r, GenFn{pw}, L(0)), mk(r, PlainFn{pw, 1}, L(1)), mk(r, OpFn{pw, 2}, L(2)), mk(r, SinkFn{pw, 3}, L(3)));
-      else
-        runStages(w, mk(r, GenFn{pw}, L(0)), mk(r, PlainFn{pw, 1}, L(1)), mk(r, PlainFn{pw, 2}, L(2)), mk(r, SinkFn{pw, 3}, L(3)));
+      tr1<Raw>(w, c.ops[0], [&](auto f1) {
+        tr2<Raw>(w, c.ops[1], [&](auto f2) {
+          runStages(w, mk(r, GenFn{pw}, L(0)), mk(r, std::move(f1), L(1)), mk(r, std::move(f2), L(2)), mk(r, SinkFn{pw, 3}, L(3)));
+        });
+      });
       break;
   }
 }
